@@ -17,6 +17,8 @@ import DarkluaModel.Rules.UnusedIfBranchWhole
 import DarkluaModel.Rules.ComputeExpressionSound
 import DarkluaModel.Rules.EvalC08Sound
 import DarkluaModel.Rules.AllocSteps
+import DarkluaModel.Rules.UnusedVariableHeap
+import DarkluaModel.Rules.NilDeclarationHeap
 /-!
 # C01 — default rules preserve program behaviour: property theorems
 
@@ -603,5 +605,86 @@ example : (["a", "b"] : List String).Nodup ∧ (["b", "a"] : List String).Nodup 
   intro x hx
   simp at hx
   rcases hx with rfl | rfl <;> rfl
+
+/-! ### remove_unused_variable — whole rule on a fragment (stage-3 lifting: equality up to cell renumbering) -/
+
+/-- **Whole rule** (`_partial`): for EVERY evaluator `api` and every program `b` on which the rule agrees with
+its guarded version (`H b := applyG api b = apply api b`, decidable; `applyG` performs, in every scope and on
+every pass, exactly the removals of declarations whose names are all unused, whose values are atomic — literals,
+identifiers, `...` — and whose names are not referenced afterwards, and leaves every other statement alone),
+`remove_unused_variable` (all its passes) preserves the observable outcome — returned / raised values and the
+trace of external calls — at every call level, number system and oracle. Outside `H`: declarations dropped
+although a shadowed occurrence remains (FindUsage is scope aware, the link is not), initialisers that are
+"pure" for the evaluator but not total (`local x = -nil`: the original RAISES, the output does not — not a
+C01 violation, C01 only speaks about error-free originals), effectful values kept as statements, regrouping,
+unused local functions (closure allocation), F25. -/
+theorem rule_refines_remove_unused_variable_partial (api : EvalApi) (b : Block)
+    (h : Rules.UnusedVariable.Guarded.applyG api b = Rules.UnusedVariable.apply api b)
+    {N : NumOps} (ρ : ExtOracle N) (n : Nat) (externs : List String) :
+    runProgram ρ n externs (Rules.UnusedVariable.apply api b) = runProgram ρ n externs b :=
+  Rules.UnusedVariable.Guarded.apply_refines_of_agree api b h ρ n externs
+
+/-- the guarded rule itself is sound on EVERY program -/
+theorem rule_refines_remove_unused_variable_guarded (api : EvalApi) (b : Block)
+    {N : NumOps} (ρ : ExtOracle N) (n : Nat) (externs : List String) :
+    runProgram ρ n externs (Rules.UnusedVariable.Guarded.applyG api b) = runProgram ρ n externs b :=
+  Rules.UnusedVariable.Guarded.applyG_refines api b ρ n externs
+
+/-- `local unused = a; local y = 1; do local u2, u3 = nil; emit(y) end` -/
+def unusedSample : Block :=
+  .mk [.localAssign .loc [.mk "unused" none] [.var "a"], .localAssign .loc [.mk "y" none] [.num 1],
+    .doBlock (.mk [.localAssign .loc [.mk "u2" none, .mk "u3" none] [.nil],
+                   .callStmt (.call (.var "emit") none .tuple [.var "y"])] none)] none
+
+def unusedSampleOut : Block :=
+  .mk [.localAssign .loc [.mk "y" none] [.num 1],
+    .doBlock (.mk [.callStmt (.call (.var "emit") none .tuple [.var "y"])] none)] none
+
+-- non-vacuity: the sample is inside `H`, and the rule removes two declarations (one in a nested scope, second pass)
+example : Rules.UnusedVariable.Guarded.applyG litApi unusedSample = Rules.UnusedVariable.apply litApi unusedSample ∧
+    Rules.UnusedVariable.apply litApi unusedSample = unusedSampleOut := by
+  have h1 : Rules.UnusedVariable.Guarded.applyG litApi unusedSample = unusedSampleOut := by rfl
+  have h2 : Rules.UnusedVariable.apply litApi unusedSample = unusedSampleOut := by rfl
+  exact ⟨h1.trans h2.symm, h2⟩
+
+/-! ### remove_nil_declaration — whole rule on a fragment (stage-3 lifting: equality up to cell renumbering) -/
+
+/-- **Whole rule** (`_partial`): for every evaluator `api` and every program `b` on which the rule agrees with its
+guarded version (`H b := applyG api b = apply api b`, decidable; `applyG` performs a rewrite
+`local ns = vs ↦ local ns' = vs'` only when it is validated by `checkPerm`: simple atomic values, pairwise
+DISTINCT names on both sides — F24 is fixed, and excluded here anyway —, same name set, every name paired with
+the same value expression, a missing value counting as `nil`), `remove_nil_declaration` preserves the observable
+outcome of the program at every call level, number system and oracle. Outside `H`: non-atomic values (popping a
+surplus value that is "pure" for the evaluator can also remove an ERROR, e.g. `local a = 1, nil + 1` — outside
+C01, which speaks about error-free originals) and multi-valued tails. -/
+theorem rule_refines_remove_nil_declaration_partial (api : EvalApi) (b : Block)
+    (h : Rules.NilDeclaration.Guarded.applyG api b = Rules.NilDeclaration.apply api b)
+    {N : NumOps} (ρ : ExtOracle N) (n : Nat) (externs : List String) :
+    runProgram ρ n externs (Rules.NilDeclaration.apply api b) = runProgram ρ n externs b :=
+  Rules.NilDeclaration.Guarded.apply_refines_of_agree api b h ρ n externs
+
+/-- the guarded rule is sound on EVERY program -/
+theorem rule_refines_remove_nil_declaration_guarded (api : EvalApi) (b : Block)
+    {N : NumOps} (ρ : ExtOracle N) (n : Nat) (externs : List String) :
+    runProgram ρ n externs (Rules.NilDeclaration.Guarded.applyG api b) = runProgram ρ n externs b :=
+  Rules.NilDeclaration.Guarded.applyG_refines api b ρ n externs
+
+/-- `local a, b, c = nil, x, nil; emit(a, b, c)` -/
+def nilSample : Block :=
+  .mk [.localAssign .loc [.mk "a" none, .mk "b" none, .mk "c" none] [.nil, .var "x", .nil],
+       .callStmt (.call (.var "emit") none .tuple [.var "a", .var "b", .var "c"])] none
+
+-- non-vacuity: inside `H`, and the rule really permutes: `local b, a, c = x`
+example : Rules.NilDeclaration.Guarded.applyG litApi nilSample = Rules.NilDeclaration.apply litApi nilSample ∧
+    Rules.NilDeclaration.apply litApi nilSample =
+      .mk [.localAssign .loc [.mk "b" none, .mk "a" none, .mk "c" none] [.var "x"],
+           .callStmt (.call (.var "emit") none .tuple [.var "a", .var "b", .var "c"])] none := by
+  have h1 : Rules.NilDeclaration.Guarded.applyG litApi nilSample =
+      .mk [.localAssign .loc [.mk "b" none, .mk "a" none, .mk "c" none] [.var "x"],
+           .callStmt (.call (.var "emit") none .tuple [.var "a", .var "b", .var "c"])] none := by rfl
+  have h2 : Rules.NilDeclaration.apply litApi nilSample =
+      .mk [.localAssign .loc [.mk "b" none, .mk "a" none, .mk "c" none] [.var "x"],
+           .callStmt (.call (.var "emit") none .tuple [.var "a", .var "b", .var "c"])] none := by rfl
+  exact ⟨h1.trans h2.symm, h2⟩
 
 end DarkluaModel.C01
